@@ -319,9 +319,12 @@ def validate_traces(module, cfg, traces, ctx, label, env=None, timeout=1800, deq
         for p in res.tagged('REJECT'):
             if p[0] not in why or p[1] < why[p[0]][0]:
                 why[p[0]] = (p[1], p[2] if len(p) > 2 else None)
+        notes = {}
+        for p_ in res.tagged('NOTE'):
+            notes.setdefault(p_[0], []).append(p_[1:])
         for i in range(len(part)):
             tid = i + 1
-            v = {'accepted': tid in acc, 'at': at.get(tid), 'why': None}
+            v = {'accepted': tid in acc, 'at': at.get(tid), 'why': None, 'notes': notes.get(tid, [])}
             if not v['accepted']:
                 if tid in why:
                     v['at'], v['why'] = why[tid]
